@@ -95,14 +95,20 @@ impl Proto for PUnchecked {
     type W<'a> = UOut<&'a mut BytesMut>;
     type R<'a> = UIn<'a>;
     fn writer<'a>(b: &'a mut BytesMut) -> Self::W<'a> {
+        // pre-filled transport (len == capacity), window over all of it: the form of the
+        // repository's bench in which `self.trans[..]` and the window coincide. (With len == 0
+        // the writer's `self.trans.get_unchecked_mut(..)` indexes past the slice length, which
+        // std's debug precondition checks reject natively; see DESIGN.md §4 C11.)
+        let cap = b.capacity();
+        b.resize(cap, 0);
         unsafe {
-            let s: &'static mut [u8] = core::slice::from_raw_parts_mut(b.as_mut_ptr(), b.capacity());
+            let s: &'static mut [u8] = core::slice::from_raw_parts_mut(b.as_mut_ptr(), cap);
             UOut::new(b, s, false)
         }
     }
     fn finish<'a>(mut w: Self::W<'a>) {
         let idx = w.index();
-        unsafe { w.buf_mut().set_len(idx) };
+        w.buf_mut().truncate(idx);
         core::mem::forget(w)
     }
     fn reader<'a>(b: &'a mut Bytes) -> Self::R<'a> {
